@@ -194,7 +194,6 @@ async fn extract_archive(
     let mut manifest = reader.find_manifest::<ManifestVersion1>().await?;
     let manifest = manifest.take().ok_or(Error::NoArchiveManifest)?;
     let paths = paths.with_account_id(&manifest.account_id);
-    extract_files(&mut reader, &paths).await?;
     let (
         manifest,
         identity,
@@ -204,7 +203,7 @@ async fn extract_archive(
         files,
         preferences,
         remotes,
-    ) = finish(reader, manifest).await?;
+    ) = finish(&mut reader, manifest).await?;
 
     // Check each target vault can be decoded
     let mut decoded: Vec<(Vec<u8>, Vault)> = Vec::new();
@@ -212,6 +211,11 @@ async fn extract_archive(
         let vault: Vault = decode(&item.1).await?;
         decoded.push((item.1, vault));
     }
+
+    // Only write the external files once the archive has
+    // been verified against the manifest so that a rejected
+    // archive leaves nothing behind
+    extract_files(&mut reader, &paths).await?;
 
     let devices = if let Some((vault_item, event_item)) = devices {
         Some((vault_item.1, event_item))
@@ -296,7 +300,7 @@ async fn extract_files(
 /// It also extracts the vault summaries so we are confident
 /// each buffer is a valid vault.
 async fn finish(
-    mut reader: ZipReader<BufReader<vfs::File>>,
+    reader: &mut ZipReader<BufReader<vfs::File>>,
     manifest: ManifestVersion1,
 ) -> Result<(
     ManifestVersion1,
@@ -310,14 +314,14 @@ async fn finish(
 )> {
     let entry_name = format!("{}.{}", manifest.account_id, VAULT_EXT);
     let checksum = hex::decode(&manifest.checksum)?;
-    let identity = archive_folder(&mut reader, &entry_name, checksum).await?;
+    let identity = archive_folder(&mut *reader, &entry_name, checksum).await?;
     let mut vaults = Vec::new();
 
     for (k, v) in &manifest.vaults {
         let entry_name = format!("{}.{}", k, VAULT_EXT);
         let checksum = hex::decode(v)?;
         vaults
-            .push(archive_folder(&mut reader, &entry_name, checksum).await?);
+            .push(archive_folder(&mut *reader, &entry_name, checksum).await?);
     }
 
     let devices = if let Some((vault_checksum, event_checksum)) =
@@ -326,13 +330,13 @@ async fn finish(
         let devices_vault_name = format!("{}.{}", DEVICE_FILE, VAULT_EXT);
         let devices_event_name = format!("{}.{}", DEVICE_FILE, EVENT_LOG_EXT);
         let devices_vault = archive_folder(
-            &mut reader,
+            &mut *reader,
             &devices_vault_name,
             hex::decode(vault_checksum)?,
         )
         .await?;
         let devices_event = archive_buffer(
-            &mut reader,
+            &mut *reader,
             &devices_event_name,
             hex::decode(event_checksum)?,
         )
@@ -345,7 +349,7 @@ async fn finish(
     let account = if let Some(checksum) = &manifest.account {
         let name = format!("{}.{}", ACCOUNT_EVENTS, EVENT_LOG_EXT);
         let events =
-            archive_buffer(&mut reader, &name, hex::decode(checksum)?)
+            archive_buffer(&mut *reader, &name, hex::decode(checksum)?)
                 .await?;
         Some(events)
     } else {
@@ -355,7 +359,7 @@ async fn finish(
     let files = if let Some(checksum) = &manifest.files {
         let name = format!("{}.{}", FILE_EVENTS, EVENT_LOG_EXT);
         let events =
-            archive_buffer(&mut reader, &name, hex::decode(checksum)?)
+            archive_buffer(&mut *reader, &name, hex::decode(checksum)?)
                 .await?;
         Some(events)
     } else {
@@ -365,7 +369,7 @@ async fn finish(
     let prefs = if let Some(checksum) = &manifest.preferences {
         let name = format!("{}.{}", PREFERENCES_FILE, JSON_EXT);
         let events =
-            archive_buffer(&mut reader, &name, hex::decode(checksum)?)
+            archive_buffer(&mut *reader, &name, hex::decode(checksum)?)
                 .await?;
         Some(events)
     } else {
@@ -375,7 +379,7 @@ async fn finish(
     let remotes = if let Some(checksum) = &manifest.remotes {
         let name = format!("{}.{}", REMOTES_FILE, JSON_EXT);
         let events =
-            archive_buffer(&mut reader, &name, hex::decode(checksum)?)
+            archive_buffer(&mut *reader, &name, hex::decode(checksum)?)
                 .await?;
         Some(events)
     } else {
